@@ -323,11 +323,12 @@ impl Property for C09 {
             }
             // (b) predict equals the dropout-free twin with the same parameters
             let params = step.params.clone();
-            let (twin, _) = run_env(&ref_env, |_| {
+            let (twin, twin_info) = run_env(&ref_env, |_| {
                 let mut r = prepare(case, &plain);
                 set_parameters(&mut r.net, &params);
                 probe_inputs(&r).iter().map(|x| bits(&flat(&r.net.predict(x)))).collect::<Vec<_>>()
             });
+            stats.execution(&ref_env, &twin_info);
             match twin {
                 Ok(t) => {
                     if t != step.probes {
@@ -353,7 +354,7 @@ impl Property for C09 {
                     });
                 }
                 for k in 1..=step.val_loss.len() {
-                    let (expected, _) = run_env(&ref_env, |ctx| {
+                    let (expected, prefix_info) = run_env(&ref_env, |ctx| {
                         let p = params_after_prefix(case, i, k as i32, ctx);
                         let mut r = prepare(case, &plain);
                         set_parameters(&mut r.net, &p);
@@ -361,6 +362,8 @@ impl Property for C09 {
                         let vyr: Vec<&tensor::Tensor> = r.vy.iter().collect();
                         r.net.validate(&vxr, &vyr, LEARN_TOL)
                     });
+                    stats.execution(&ref_env, &prefix_info);
+                    stats.operations += i as u64 + 2;
                     let (el, ea) = match expected {
                         Ok(x) => x,
                         Err(e) => return Outcome::Degenerate(format!("prefix replay panics: {}", panic_class(&e))),
